@@ -296,7 +296,7 @@ func c20(c *Ctx) {
 			allErr := true
 			for _, b := range tg.Blocks {
 				for _, in := range b.Instrs {
-					if ret, ok := in.(*ssa.Return); ok && len(ret.Results) == 2 && (!an.IsNilConst(an.RetVal(ret, 0)) || an.IsNilConst(an.RetVal(ret, 1))) {
+					if ret, ok := an.AsReturn(in); ok && len(ret.Results) == 2 && (!an.IsNilConst(an.RetVal(ret, 0)) || an.IsNilConst(an.RetVal(ret, 1))) {
 						allErr = false
 					}
 				}
